@@ -257,3 +257,25 @@ Proof.
   - eapply normal_form_normal; exact H.
   - eapply normal_form_normal; exact H'.
 Qed.
+
+(* non-vacuity: a concrete diagram (two states f, g feeding a box h, written g-first)
+   whose right normal form is a different diagram of its class, and on which the left
+   and right normal forms of both presentations agree with each other *)
+Section NonVacuity.
+  Let x := Ob 1 0. Let y := Ob 2 0.
+  Let f := Box KBox 10 [] [x] false None.
+  Let g := Box KBox 11 [] [y] false None.
+  Let h := Box KBox 12 [x; y] [x] false None.
+  Let get (r : res diagram) : diagram := match r with Ok d => d | Err _ => did [] end.
+  Let d1 := get (mk [] [x] [f; g; h] [0; 1; 0]).
+  Let d2 := get (mk [] [x] [g; f; h] [0; 0; 0]).
+  Example normal_form_nonvacuous :
+    deqb d1 d2 = false /\ interchanger_equiv d2 d1 /\
+    normal_form 10 d2 false = Ok d1 /\ normal_form 10 d1 false = Ok d1 /\
+    normal_form 10 d1 true = Ok d2 /\ normal_form 10 d2 true = Ok d2.
+  Proof.
+    assert (H : normal_form 10 d2 false = Ok d1) by (vm_compute; reflexivity).
+    split; [vm_compute; reflexivity|]. split; [exact (normal_form_equiv _ _ _ _ H)|].
+    split; [exact H|]. repeat split; vm_compute; reflexivity.
+  Qed.
+End NonVacuity.
